@@ -270,6 +270,15 @@ class Tables:
         for names, val, st in _module_assignments(mod):
             if names[0] in want:
                 got[names[0]] = ev.ev(val)
+            else:
+                # other module-level names (hoisted constants, alias lists) are folded where they are literal
+                # expressions, so that the tables may refer to them; anything else is simply left unbound
+                try:
+                    v = ev.ev(val)
+                except AnalysisError:
+                    continue
+                for nm in names:
+                    env[nm] = v
         missing = want - set(got)
         if missing:
             raise AnalysisError(f"anchor-missing tables {sorted(missing)}")
